@@ -22,7 +22,7 @@ import xarray as xr
 from dask.array import Array as Dask_Array
 
 from . import gridops, metadata_parsers
-from .axis import Axis
+from .axis import VALID_POSITION_NAMES, Axis
 from .grid_ufunc import (
     GridUFunc,
     _check_data_input,
@@ -734,6 +734,11 @@ class Grid:
             to_pos = to[ax_name]
             if to_pos is None:
                 to_pos = ax._default_shifts[from_pos]
+            elif to_pos not in VALID_POSITION_NAMES.split("|"):
+                # (the signature parser below ignores blanks, so " left" or "le ft" would pass for "left")
+                raise ValueError(
+                    f"`to` must be one of {VALID_POSITION_NAMES!r}, but got {to_pos!r} for axis {ax_name!r}"
+                )
 
             # TODO build this more directly?
             signature_1d = _GridUFuncSignature.from_string(
